@@ -201,6 +201,9 @@ func EvalSameOrder(a, b []EvalPair) []Mismatch {
 	}
 	for i := range a {
 		if a[i] != b[i] {
+			if strings.EqualFold(a[i].Key, b[i].Key) {
+				return []Mismatch{{"count-order-not-reproducible-names-differing-only-in-case", fmt.Sprintf("row %d is %q:%d in one listing and %q:%d in another listing of the same model", i+1, a[i].Key, a[i].Value, b[i].Key, b[i].Value)}}
+			}
 			return []Mismatch{{"count-order-not-reproducible", fmt.Sprintf("row %d is %q:%d in the first run and %q:%d in the second", i+1, a[i].Key, a[i].Value, b[i].Key, b[i].Value)}}
 		}
 	}
